@@ -134,6 +134,23 @@ func (h *hist) verifyEnt(en *ent) {
 			h.verifyMap(en, (*MapComp)(ptr), pl)
 		case kStr:
 			h.verifyStr(en, (*StrComp)(ptr), pl)
+		case kArr:
+			c := (*ArrComp)(ptr)
+			h.payload(en, k, "A[0]", c.A[0], pid(pl, 0))
+			var q1, q2 int64
+			if pl != nil {
+				q1, q2 = pl.pids[1], pl.pids[2]
+			}
+			h.payload(en, k, "A[1]", c.A[1], q1)
+			h.payload(en, k, "N[0].P", c.N[0].P, q2)
+			h.liveChecks++
+			if pl == nil {
+				if c.N[0].X != 0 {
+					h.zeroViolated(en, k, "plain field N[0].X=%d not zero", c.N[0].X)
+				}
+			} else if c.N[0].X != pl.x {
+				h.corrupt(en, k, "plain field N[0].X=%d, expected %d", c.N[0].X, pl.x)
+			}
 		case kMixed:
 			c := (*Mixed)(ptr)
 			h.payload(en, k, "P", c.P, pid(pl, 0))
